@@ -4030,13 +4030,16 @@ impl Collection {
                     // order is preserved, matching the other branches.
                     let mut rt: UniqueVec<DocumentId> =
                         UniqueVec::with_capacity(Self::reserve_hint(limit));
+                    // The scan walks the index in key order, which says
+                    // nothing about id order, so it cannot stop after `limit`
+                    // ids: the page is an end of the ascending id list and is
+                    // only known once every match is collected. Like the
+                    // composite operands, collect the full match set and let
+                    // the caller trim it to `limit`.
                     index.try_range_query_ids(filter, order.is_descending(), |ids| {
                         for id in ids {
                             if candidates.is_none_or(|s| s.contains(id)) {
                                 rt.push(*id);
-                                if limit > 0 && rt.len() >= limit {
-                                    return false;
-                                }
                             }
                         }
                         true
